@@ -116,7 +116,12 @@ class Check:
         self.replay = replay
         self.rng = random.Random(seed * 1000003 + sum(map(ord, pid)))
         self.t0 = time.time()
-        self.bdir = os.path.join(BUILD, pid)
+        # a run against a scratch worktree (VERIF_REPO) gets its own scratch directory: otherwise it overwrites
+        # the harness binaries and case files of a concurrent run of the same check against /repo
+        sub = pid
+        if os.path.realpath(REPO) != "/repo":
+            sub = "%s-alt-%s" % (pid, hashlib.sha1(os.path.realpath(REPO).encode()).hexdigest()[:6])
+        self.bdir = os.path.join(BUILD, sub)
         os.makedirs(self.bdir, exist_ok=True)
         os.makedirs(os.path.join(VERIF, "evidence"), exist_ok=True)
         os.makedirs(os.path.join(VERIF, "replays"), exist_ok=True)
